@@ -334,6 +334,8 @@ def mgc2mgcSameAlpha (c : List α) (g1 : α) (m2 : Nat) (g2 : α) : List α :=
 def lsp2mgc (fx : Fix) (useLogGain : Bool) (stage : Nat) (gamma : α) (v : List α) : List α :=
   let lpc := lsp2lpc fx v
   let g0 := if useLogGain then Transc.exp (v.getD 0 0) else v.getD 0 0
+  -- `gain.max(MIN_GAIN)`: a NaN or non-positive gain becomes the floor
+  let g0 := if Consts.minGain < g0 then g0 else Consts.minGain
   let lpc := lpc.set 0 g0
   let lpc := ignorm gamma lpc
   let lpc := match lpc with
